@@ -295,6 +295,17 @@ Theorem C20_default_is_idl : forall parse_f64 S,
 Proof. exact default_is_idl. Qed.
 Print Assumptions C20_default_is_idl.
 
+(* ... and that is not an equality of two Nones: the expected default EXISTS (and is the emitted Default value) for every type
+   whose declarations have the shape for it -- decided on the declarations alone, no literal is evaluated: no chain of required
+   by-value members without default deeper than the schema, no empty union, no unresolved typedef (default_shape_ok;
+   LitTopP.default_exists_nonvacuous: the shape holds for the example schema and fails exactly for a required by-value cycle) *)
+Theorem C20_default_exists : forall parse_f64 S,
+  lits_typed parse_f64 S = true -> class_free_schema S = true -> forall n,
+  default_shape_ok S (Datatypes.S (Datatypes.S (length (ls_items S)))) (TyRef n) = true ->
+  exists v, expected_default parse_f64 S n = Some v /\ default_of (proj parse_f64 S) (TyRef n) = Some v.
+Proof. exact default_exists. Qed.
+Print Assumptions C20_default_exists.
+
 (* an integer literal at a double: the arm's value, for every i and every schema ... *)
 Theorem C20_int_at_double : forall parse_f64 S i,
   default_val_lit parse_f64 S RF64 (LInt i) = LOk (GDouble (f64_enc (z2f 53 i)), true).
